@@ -119,6 +119,16 @@ func vhSeg(r vhRec, workFlag string) string {
 	return f(r.y, 4) + f(r.m, 2) + f(r.d, 2) + f(r.name, 1) + workFlag + f(r.ty, 4) + f(r.tm, 2) + f(r.td, 2)
 }
 
+func vhListHasRec(l *list.List, r vhRec) bool {
+	n := 0
+	for e := l.Front(); e != nil; e = e.Next() {
+		if vhSame(e.Value.(*Holiday), r) {
+			n++
+		}
+	}
+	return n == 1
+}
+
 func vhSameRecs(a, b []vhRec) bool {
 	if len(a) != len(b) {
 		return false
@@ -189,6 +199,10 @@ func VH_C14_Fix() {
 		want = append(append(want, rs...), nr)
 		h := GetHolidayByYmd(nr.y, nr.m, nr.d)
 		vAssert("fix:added-visible", vhSame(h, nr))
+		// the added record is the last one of the table: it must show in its target's, month's and year's views too
+		vAssert("fix:added-visible-by-target", vhListHasRec(GetHolidaysByTargetYmd(nr.ty, nr.tm, nr.td), nr))
+		vAssert("fix:added-visible-by-month", vhListHasRec(GetHolidaysByYm(nr.y, nr.m), nr))
+		vAssert("fix:added-visible-by-year", vhListHasRec(GetHolidaysByYear(nr.y), nr))
 	}
 	vAssert("fix:table-exact", vhSameRecs(vhRecords(), want))
 	h := GetHolidayByYmd(r.y, r.m, r.d)
